@@ -35,6 +35,7 @@ type World struct {
 	externals map[string]bool
 	trusted   map[string]string
 	lemmaUses map[string]bool
+	env       []string
 }
 
 func (w *World) typeTag(name string) int {
@@ -72,8 +73,8 @@ func (w *World) noteTrusted(name, reason string) {
 func loadWorld(repo, verif string) (*World, error) {
 	w := &World{repo: repo, verif: verif, funcs: map[string]*ssa.Function{}, typeTags: map[string]int{}, externals: map[string]bool{}, trusted: map[string]string{},
 		prelude: map[string]string{}, sigs: map[string]map[string]FuncSig{}}
-	cfg := &packages.Config{Mode: packages.LoadAllSyntax, Dir: repo, BuildFlags: []string{"-tags=verif"},
-		Env: append(os.Environ(), "GOFLAGS=-mod=mod", "GOPROXY=off", "GOSUMDB=off", "GOTOOLCHAIN=local")}
+	w.env = append(os.Environ(), "GOFLAGS=-mod=mod", "GOPROXY=off", "GOSUMDB=off", "GOTOOLCHAIN=local")
+	cfg := &packages.Config{Mode: packages.LoadAllSyntax, Dir: repo, BuildFlags: []string{"-tags=verif"}, Env: w.env}
 	pkgs, err := packages.Load(cfg, ".")
 	if err != nil {
 		return nil, err
